@@ -7,6 +7,9 @@ def dispatchScope (line : String) : String :=
   | "tr" :: args => handleTr args
   | "at" :: args => handleAt args
   | "cl" :: args => handleCl args
+  | "fa" :: args => handleFa args
+  | "lo" :: args => handleLo args
+  | "sp" :: args => handleSp args
   | _ => "bad-op"
 
 partial def loopScope (h : IO.FS.Stream) (out : IO.FS.Stream) : IO Unit := do
